@@ -82,6 +82,13 @@ def generate():
                 yield ("field name spellings", [mk("#[educe(%s)]" % a, pos) for a in fcustom])
     for label, mk, shape in field_hosts(["#[educe(Debug(named_field = true))]"], kinds=("struct",)):
         yield ("field name spellings", [mk("#[educe(%s)]" % a, 1) for a in fcustom])
+    # names that are not plain identifiers when written as a string: raw identifiers
+    for label, mk, shape in field_hosts(["#[educe(Debug)]"]):
+        if shape == "named":
+            yield ("field name spellings (raw identifier)", [mk("#[educe(%s)]" % a.replace("x", "r#type"), 1) for a in fcustom + ['Debug(name("x"))', 'Debug(rename = "x")']])
+    for shape in SHAPES:
+        fs = plain_fields(shape, 2)
+        yield ("type name spellings (raw identifier)", [item("struct", "S", ["#[educe(%s)]" % a.replace("X", "r#Match")], [("", shape, [], fs)]) for a in custom + ['Debug(rename("X"))']])
     # ---- bound
     for t in ["Debug", "Clone", "PartialEq", "Hash", "Ord", "PartialOrd", "Default", "Copy", "Eq"]:
         groups = [["bound(T: Copy)", 'bound = "T: Copy"', 'bound("T: Copy")', "bound(T: Copy,)"],
